@@ -109,7 +109,17 @@ def check(q, desc, tcode):
                 m.skip_to_quality(t)
             except Exception as e:  # noqa
                 return "%s on %s: skip_to_quality(%r) from entry %d raised %s: %s" % (desc, cname, t, start, type(e).__name__, e), True
-            rest_ids = [d for d, _ in items(m)]
+            rest = items(m)
+            rest_ids = [d for d, _ in rest]
+            # what is left is still a suffix of the original list (same documents, same scores): the cursor stays faithful
+            tail = dict(L[start:])
+            for d, sc in rest:
+                if d not in tail:
+                    return "%s on %s: after skip_to_quality(%r) from entry %d the matcher yields %r, which is not in the list %r" % (desc, cname, t, start, d, L), True
+                # an entry that scores more than t keeps its score; one that does not may have lost a contribution that was skipped
+                # (it cannot enter the top N either way), but can never score more than before
+                if (tail[d] > t + EPS and abs(tail[d] - sc) > EPS * max(1.0, abs(sc))) or sc > tail[d] + EPS * max(1.0, abs(sc)):
+                    return "%s on %s: after skip_to_quality(%r) from entry %d document %r scores %r, was %r" % (desc, cname, t, start, d, sc, tail[d]), True
             for d, sc in L[start:]:
                 if sc > t + EPS and d not in rest_ids:
                     return "%s on %s: skip_to_quality(%r) from entry %d passed over %r (list %r, left %r)" % (desc, cname, t, start, (d, sc), L, rest_ids), True
